@@ -130,7 +130,7 @@ def native_replay(h, prop, workdir):
     specdir = os.path.dirname(h.path)
     cc = shutil.which('gcc') or 'cc'
     cmd = [cc, '-g', '-O0', '-w', '-fsanitize=address,undefined', '-fno-sanitize-recover=undefined', '-fno-omit-frame-pointer',
-           '-no-pie', '-fno-pie', '-DV_NATIVE'] + core.INC + ['-I' + os.path.join(core.VERIF, 'vlib'), '-I' + specdir, '-I' + workdir]
+           '-no-pie', '-fno-pie', '-DV_NATIVE'] + core.INC + ['-I' + os.path.join(core.VERIF, 'vlib'), '-I' + specdir, '-I' + os.path.join(core.VERIF, 'spec'), '-I' + workdir]
     for tu in h.tus:
         cmd.append('-I' + os.path.dirname(os.path.join(core.REPO, tu)))
     for r in nat.get('rename', []):
